@@ -174,7 +174,10 @@ fn check(spec: &Spec, base: &Baseline, o: &Outcome) -> Result<&'static str, (Str
         if spec.faults.is_empty() {
             return v("spurious_error", format!("error without any fault: {errors:?}"));
         }
-        if !errors.iter().any(|e| markers.iter().any(|m| e.contains(m))) {
+        // under a limited pool, or after a refused request, the failure may legitimately surface as the operator's
+        // own out-of-memory error
+        let oom_ok = spec.budget.is_some() || spec.faults.iter().any(|f| matches!(f, Fault::Refuse { .. }));
+        if !errors.iter().any(|e| markers.iter().any(|m| e.contains(m)) || (oom_ok && e.contains("Resources exhausted"))) {
             return v("foreign_error", format!("the surfaced error(s) do not carry the injected failure: {errors:?}"));
         }
         return Ok("error");
@@ -200,6 +203,17 @@ fn check(spec: &Spec, base: &Baseline, o: &Outcome) -> Result<&'static str, (Str
         );
     }
     Ok(if o.triggered.iter().any(|t| *t) { "full_result" } else { "not_reached" })
+}
+
+/// Scenarios whose executions are not a function of the event order: `InterleaveExec` polls its inputs starting at a
+/// random index (tokio's thread-local RNG); a coalescing `RepartitionExec` flushes its per-output residual batches
+/// and fans out end-of-input / errors in the iteration order of randomly seeded `HashMap`s, which decides who gets
+/// memory first under a limited pool and which spill file a globally counted spill operation belongs to.  They are
+/// run with the default event order only (every execution is still a real one and is judged by the same oracle).
+fn order_is_randomized(spec: &Spec) -> bool {
+    spec.shape == Shape::Interleave
+        || (spec.shape.has_coalescing_repartition()
+            && (spec.budget.is_some() || spec.faults.iter().any(|f| matches!(f, Fault::SpillCreate { .. } | Fault::SpillWrite { .. } | Fault::SpillFinish { .. }))))
 }
 
 fn run_case(c: &Case) -> Result<(), String> {
@@ -299,46 +313,25 @@ fn fault_sets(ctx: &Ctx, spec: &Spec, base: &Baseline) -> Vec<Vec<Fault>> {
 }
 
 fn explore(ctx: &Ctx) {
-    // scenarios = shape x batch size x budget.  Shapes with a coalescing RepartitionExec are only deterministic
-    // under memory pressure with batch size 1 (see Shape::has_coalescing_repartition): for them the memory / spill
-    // faults and the spilling budget are explored with batch size 1, the source errors also with the default size.
-    let mut protos: Vec<(Shape, usize, bool)> = vec![]; // (shape, batch size, source faults only)
-    for s in ALL_SHAPES {
-        if s.has_coalescing_repartition() {
-            protos.push((*s, 8192, true));
-            protos.push((*s, 1, false));
-            if ctx.thorough() {
-                protos.push((*s, 2, true));
-            }
-        } else {
-            protos.push((*s, 8192, false));
-            if ctx.thorough() {
-                protos.push((*s, 2, false));
-            }
-        }
-    }
-    let batch_sizes = "8192 (thorough: and 2); 1 for memory/spill faults of shapes with a coalescing RepartitionExec";
-    let calibrated: Vec<(Shape, usize, bool, Option<(usize, usize)>)> = protos
+    // scenarios = shape x batch size x budget
+    let batch_sizes: Vec<usize> = ctx.pick(vec![8192], vec![8192, 2]);
+    let protos: Vec<(Shape, usize)> = ALL_SHAPES.iter().flat_map(|s| batch_sizes.iter().map(move |b| (*s, *b))).collect();
+    let calibrated: Vec<(Shape, usize, Option<(usize, usize)>)> = protos
         .par_iter()
-        .map(|(s, b, so)| {
-            if *so {
-                return (*s, *b, *so, None);
-            }
-            match mc_core::catch(|| calibrate(*s, *b)).unwrap_or_else(Err) {
-                Ok(x) => (*s, *b, *so, x),
-                Err(e) => {
-                    ctx.machinery_error(format!("calibration of {s:?}: {e}"));
-                    (*s, *b, *so, None)
-                }
+        .map(|(s, b)| match mc_core::catch(|| calibrate(*s, *b)).unwrap_or_else(Err) {
+            Ok(x) => (*s, *b, x),
+            Err(e) => {
+                ctx.machinery_error(format!("calibration of {s:?}: {e}"));
+                (*s, *b, None)
             }
         })
         .collect();
-    let mut scenarios: Vec<(Spec, bool)> = vec![];
+    let mut scenarios: Vec<Spec> = vec![];
     let mut budgets = serde_json::Map::new();
-    for (s, b, so, cal) in &calibrated {
-        scenarios.push((Spec::new(*s, None, *b), *so));
+    for (s, b, cal) in &calibrated {
+        scenarios.push(Spec::new(*s, None, *b));
         if let Some((limit, files)) = cal {
-            scenarios.push((Spec::new(*s, Some(*limit), *b), *so));
+            scenarios.push(Spec::new(*s, Some(*limit), *b));
             budgets.insert(format!("{s:?}/bs{b}"), json!({"fair_spill_pool_limit": limit, "spill_files_fault_free": files}));
         }
     }
@@ -347,19 +340,20 @@ fn explore(ctx: &Ctx) {
         "bounds",
         json!({
             "shapes": ALL_SHAPES.len(), "scenarios": scenarios.len(), "batch_sizes": batch_sizes,
+            "randomized_scenarios": "Interleave; coalescing RepartitionExec under a limited pool or with spill faults: default event order only",
             "sources": "2 partitions x 2-3 batches x 2 rows per leaf (1-2 leaves)",
             "faults_per_run": ctx.pick("1", "1 and 2"),
-            "fault_points": "source error at every (source, partition, item k incl. end of stream); refused try_grow #k for every k < fault-free count; spill create/write/finish #k for every k < fault-free count",
+            "fault_points": "source error at every (source, partition, item k incl. end of stream); refused k-th try_grow of every memory consumer for every k < its fault-free count; spill create/write/finish #k for every k < fault-free count",
             "event_orders": format!("default + <= {bound} deviations"),
             "spilling_budgets": budgets,
         }),
     );
     let per_shape: parking_lot::Mutex<HashMap<String, [u64; 4]>> = Default::default();
     // work items = (scenario, baseline, fault set)
-    let bases: Vec<(Spec, bool, Baseline)> = scenarios
+    let bases: Vec<(Spec, Baseline)> = scenarios
         .par_iter()
-        .filter_map(|(s, so)| match mc_core::catch(|| baseline(s)).unwrap_or_else(Err) {
-            Ok(b) => Some((s.clone(), *so, b)),
+        .filter_map(|s| match mc_core::catch(|| baseline(s)).unwrap_or_else(Err) {
+            Ok(b) => Some((s.clone(), b)),
             Err(e) => {
                 ctx.violation(format!("{:?}|none|fault_free_failure", s.shape), e, json!({"spec": s, "prefix": []}));
                 None
@@ -367,11 +361,8 @@ fn explore(ctx: &Ctx) {
         })
         .collect();
     let mut items: Vec<(Spec, &Baseline)> = vec![];
-    for (s, so, b) in &bases {
+    for (s, b) in &bases {
         for fs in fault_sets(ctx, s, b) {
-            if *so && !fs.iter().all(|f| matches!(f, Fault::Source { .. })) {
-                continue;
-            }
             let mut sp = s.clone();
             sp.faults = fs;
             items.push((sp, b));
@@ -385,7 +376,14 @@ fn explore(ctx: &Ctx) {
         if ctx.should_stop() {
             return;
         }
-        let b = if spec.faults.len() > 1 { 1 } else { bound };
+        let b = if order_is_randomized(spec) {
+            ctx.count("fault_sets_default_order_only(randomized_operator_internals)", 1);
+            0
+        } else if spec.faults.len() > 1 {
+            1
+        } else {
+            bound
+        };
         let stats = mc_core::explore::dfs_deviations(
             b,
             |prefix| {
